@@ -776,6 +776,12 @@ def c18_print(r, seed, tier, model_ok):
             if k < .3: return f"({E(Rc.choice([0, 1, -1, 3]))} ㅅㅅㅎㄴ)"
             if k < .4: return f"(({E(0)} ㅅㅅㅎㄴ) {E(-1)} ㄱㅎㄷ)"                                             # -0.0
             if k < .5: return Rc.choice(["(ㅂ ㅅ ㅁ ㅂㅎㄹ)", "((ㅂ ㅅ ㅁ ㅂㅎㄹ) ㄴㄱ ㄱㅎㄷ)"])                  # +inf, -inf
+            if k < .65:          # AT the tolerances and a hair on either side (the doubles nearest the decimal texts, read by ㅅㅅ): |x - int(x)| against
+                from slices_world import st          # exactly 1e-16, and against 1e-9 times the larger of |x| and |int(x)|
+                sg = Rc.choice([1, -1]); d_ = Rc.choice([0, 0, 1e-15, -1e-15, 1e-6, -1e-6, 1e-4, -1e-4, 2e-4, -2e-4, 4e-4, -4e-4, 1e-3, -1e-3])
+                if Rc.random() < .5: x_ = sg * 1e-16 * (1 + d_)
+                else: n_ = Rc.choice([1, 3, 1000, 2**31, 10**9 + 7, 2**40]); x_ = sg * n_ * (1 + Rc.choice([1, -1]) * 1e-9 * (1 + d_))
+                return f"({st(repr(x_))} ㅅㅅㅎㄴ)"
             big = Rc.choice([1, 3, 2**20, 2**31, 2**40, 10**9, 2**52]); j = Rc.choice([1, 2, 20, 29, 30, 31, 40, 52, 53, 54, 60, 70])
             m = big * 2**j + Rc.choice([1, -1]); m = m if m.bit_length() <= 53 else Rc.choice([1, -1, 3])             # m * 2^-j exact in a double
             return f"(({E(Rc.choice([1, -1]) * m)} ㅅㅅㅎㄴ) (({E(2)} ㅅㅅㅎㄴ) {E(-j)} ㅅㅎㄷ) ㄱㅎㄷ)"
